@@ -96,13 +96,18 @@ abbrev ETree := Tree PTree
 
 def TIER_SEPARATOR : UInt8 := 0x5f
 
+/-- root node of an optional tier view (`null` when the tier does not exist). -/
+def tierTree {α : Type} : Option (Nat × Tree α) → Tree α
+  | some p => p.2
+  | none => .null
+
 /-- `SubstateTier::apply_partition_updates`; `sub` = `(root_version, root)` of the tier if it exists. -/
 def applyPartition (H : List UInt8 → Hash) (version : Nat) (pfx : Path)
     (sub : Option (Nat × STree)) (u : PUpd) : Except Err (Option (Hash × STree) × List Ev) :=
   match u with
   | .delta ups =>
     let kvs : List (KV Unit) := ups.map fun (k, v) => ⟨k, v.map fun bytes => (H bytes, version, ())⟩
-    match putTier H version pfx (sub.map (·.1)) (match sub with | some s => s.2 | none => .null) kvs with
+    match putTier H version pfx (sub.map (·.1)) (tierTree sub) kvs with
     | .error e => .error e
     | .ok (root, evs) => .ok (tierRoot H root, evs)
   | .reset vals =>
@@ -146,7 +151,7 @@ def applyEntity (H : List UInt8 → Hash) (version : Nat) (ek : Key)
     (part : Option (Nat × PTree)) (pus : List (Nat × PUpd)) :
     Except Err (Option (Hash × PTree) × List Ev) :=
   let rv := part.map (·.1)
-  let t : PTree := match part with | some p => p.2 | none => .null
+  let t : PTree := tierTree part
   match partitionLeafUpdates H version ek rv t pus with
   | .error e => .error e
   | .ok (kvs, evs) =>
